@@ -10,12 +10,21 @@
 //! As such, the atomic types that we provide handle implementations for are publicly re-exporter
 //! here for downstream crates to utilize.
 
+#[cfg(not(metrics_verif_loom))]
 use std::sync::atomic::Ordering;
+#[cfg(metrics_verif_loom)]
+use super::loom_shim::Ordering;
 
+#[cfg(not(any(metrics_verif, metrics_verif_loom)))]
 #[cfg(target_pointer_width = "32")]
 pub use portable_atomic::AtomicU64;
+#[cfg(not(any(metrics_verif, metrics_verif_loom)))]
 #[cfg(not(target_pointer_width = "32"))]
 pub use std::sync::atomic::AtomicU64;
+#[cfg(metrics_verif)]
+pub use crate::verif::atomic::AtomicU64;
+#[cfg(metrics_verif_loom)]
+pub use super::loom_shim::AtomicU64;
 
 use super::{CounterFn, GaugeFn};
 
